@@ -108,6 +108,8 @@ func TestVerifEndpoints(t *testing.T) {
 		}
 		before := s.mgr.Status().PcapCount
 		s.mgr.ImportPcaps([]string{cn})
+		// a tag added while the import runs: its tagging job (uncertain for all streams) overlaps the import's completion
+		s.mgr.AddTag("tag/q", "", `cdata:"MARK" sport:80,81`)
 		for d := time.Now().Add(10 * time.Second); time.Now().Before(d); {
 			if st := s.mgr.Status(); st.ImportJobCount == 0 && st.PcapCount > before && !st.TaggingJobRunning {
 				break
@@ -127,6 +129,7 @@ func TestVerifEndpoints(t *testing.T) {
 		s.mgr.DelTag("mark/r")
 		s.mgr.DelTag("tag/s")
 		s.mgr.DelTag("tag/r")
+		s.mgr.DelTag("tag/q")
 	}
 	closer()
 	s.close()
